@@ -1934,7 +1934,7 @@ func (d *Data) ScaleUpdating(scale uint8) bool {
 
 func (d *Data) AnyScaleUpdating() bool {
 	d.updateMu.RLock()
-	for scale := uint8(0); scale < d.MaxDownresLevel; scale++ {
+	for scale := uint8(0); scale <= d.MaxDownresLevel; scale++ {
 		if d.updates[scale] > 0 {
 			d.updateMu.RUnlock()
 			return true
